@@ -1,8 +1,8 @@
 //! Sessions executed through the public C ABI (the path of the Python / Node bindings):
 //! auto-commit writes (`ndb_execute_write`), reads (`ndb_query`) and explicit transactions
 //! (`ndb_begin_write` / `ndb_txn_query`* / `ndb_txn_commit` | `ndb_txn_rollback`).
-//! After every case the graph is dumped through the storage read API of a second, read-only
-//! handle on the same files (the C handle stays open).  Events have the shape of the Rust-level
+//! After every case the C handle is closed, the graph is dumped through the storage read API of a
+//! Rust handle, and the C handle is opened again (one handle at a time: the files are locked).  Events have the shape of the Rust-level
 //! driver so that the same trace specification judges them.
 
 use crate::capi::CDb;
@@ -20,7 +20,7 @@ fn res_of(status: &J) -> J {
            "rc": status["rc"], "category": cat, "count": status.get("count").cloned().unwrap_or(json!(0)), "ms": 0})
 }
 
-fn dump_via_second_handle(path: &Path) -> J {
+fn dump_closed(path: &Path) -> J {
     match Db::open(path) {
         Ok(db) => {
             learn_rel_names(&db);
@@ -40,21 +40,25 @@ pub fn run_sessions(sessions: &[J], out: &mut dyn Write, scratch: &Path) -> J {
         let _ = std::fs::remove_dir_all(&dir);
         std::fs::create_dir_all(&dir).unwrap();
         let path = dir.join("g");
-        let db = match CDb::open(&path.to_string_lossy()) {
+        let db0 = match CDb::open(&path.to_string_lossy()) {
             Ok(d) => d,
             Err(e) => {
                 writeln!(out, "{}", json!({"ev": "session", "sid": sid, "open": e})).unwrap();
                 continue;
             }
         };
+        let db = &db0;
         let mut setup_res = Vec::new();
         for st in s["setup"].as_array().cloned().unwrap_or_default() {
             let r = db.execute_write(st.as_str().unwrap_or(""), &json!({}));
             setup_res.push(json!(if r["rc"] == 0 { "ok".to_string() } else { format!("err:{}", r["message"]) }));
         }
-        writeln!(out, "{}", json!({"ev": "session", "sid": sid, "open": "ok", "setup": setup_res, "api": "c",
-                                    "graph": dump_via_second_handle(&path)})).unwrap();
+        let _ = db0.close();
+        let g0 = dump_closed(&path);
+        let mut cur: Option<CDb> = CDb::open(&path.to_string_lossy()).ok();
+        writeln!(out, "{}", json!({"ev": "session", "sid": sid, "open": "ok", "setup": setup_res, "api": "c", "graph": g0})).unwrap();
         for c in s["cases"].as_array().cloned().unwrap_or_default() {
+            let Some(db) = cur.take() else { break };
             n_cases += 1;
             let kind = c["kind"].as_str().unwrap_or("upd");
             let params = c.get("cparams").cloned().unwrap_or(json!({}));
@@ -96,10 +100,21 @@ pub fn run_sessions(sessions: &[J], out: &mut dyn Write, scratch: &Path) -> J {
                     ev["res"] = json!({"out": "err", "err": format!("unknown api {other}"), "rows": [], "canon": [], "cols": []});
                 }
             }
-            ev["graph"] = dump_via_second_handle(&path);
+            ev["close"] = db.close();
+            ev["graph"] = dump_closed(&path);
             writeln!(out, "{}", ev).unwrap();
+            cur = match CDb::open(&path.to_string_lossy()) {
+                Ok(d) => Some(d),
+                Err(e) => {
+                    writeln!(out, "{}", json!({"ev": "case", "sid": sid, "cid": -1, "kind": "reopen-failed", "mode": "c", "query": "",
+                                                "params": [], "meta": {"none": true}, "res": res_of(&e)})).unwrap();
+                    None
+                }
+            };
         }
-        let _ = db.close();
+        if let Some(db) = cur.take() {
+            let _ = db.close();
+        }
         let _ = std::fs::remove_dir_all(&dir);
     }
     json!({"sessions": sessions.len(), "cases": n_cases})
